@@ -702,6 +702,7 @@ def rules_c02(ctx, rep):
     rule_graph(ctx, rep, cfgs, want=('G6b',))
     rule_transitions(ctx, rep, cfgs, want=('G2',))
     rule_expect_late(ctx, rep, cfgs)
+    rule_twins(ctx, rep, cfgs, 'G14-C02', 'de-duplication twins: a spelling whose DFA has equivalent states that de-duplication merges (merging their byte classes) generates exactly the lexer of the spelling without duplicate states: merging adds no byte to any edge', 'twins_dedup::', floor=2)
     rule_shape_coverage(ctx, rep, cfgs)
     controls(ctx, rep, ['G6a', 'G2'])
 
@@ -956,15 +957,41 @@ def rule_expect_late(ctx, rep, cfgs):
 # ------------------------------------------------------------------------------------------------
 
 def rule_promptness(ctx, rep, cfgs):
-    rid = rep.rule('G17', 'promptness: a state from which every byte value and the end of input lead to states that record the same leaf as a late match (end = the position of this state) already determines the item; it must record it itself (early) instead of reading one more position', floor=500)
+    rid = rep.rule('G17', 'promptness: a state that has a successor for every byte value (self loop included) and whose every successor, the end-of-input successor included, records the same leaf already determines that leaf; it must record it itself as an early match (otherwise a partial lexer withholds a decided item until one more byte arrives)', floor=500)
     for cfg, d, m, sm, name, s in each_state(ctx, cfgs):
         k = skey(d, m, name)
         rep.inst(rid, k)
-        if len(s.edges) != 256 or s.eoi_edge is None:
+        covered = set(s.edges) | set(s.loopset)
+        if len(covered) != 256:
             continue
-        succ = set(s.edges.values()) | {s.eoi_edge}
-        recs = {sm[t].record for t in succ}
-        if len(recs) == 1:
-            r = list(recs)[0]
-            if r is not None and r[1] == 'late' and not (s.record and s.record[1] == 'early' and s.record[0] == r[0]):
-                rep.viol(rid, 'withheld:%s' % k, 'state %s: whatever follows (any byte or the end of input) the outcome is leaf %s ending here, yet the state does not record it and waits for one more position: in partial mode the item is withheld although the prefix determines it' % (name, r[0]), d.name)
+        succ = set(s.edges.values())
+        if s.eoi_edge is not None:
+            succ.add(s.eoi_edge)
+        if s.loopset:
+            succ.add(s.key)
+        leaves = set()
+        for t in succ:
+            r = sm[t].record
+            leaves.add(r[0] if r else None)
+        if len(leaves) == 1 and None not in leaves:
+            leaf = list(leaves)[0]
+            if not (s.record and s.record == (leaf, 'early')):
+                rep.viol(rid, 'withheld:%s' % k, 'state %s: every byte and the end of input lead to a state recording leaf %s, so the item is decided here, yet the state records %s: the early-accept optimisation missed it and a partial lexer withholds the item' % (name, leaf, s.record), d.name)
+    g18 = rep.rule('G18', 'promptness: a state that records leaf L as an early match and has no self loop must not have pure sinks re-recording L as its only successors (such a successor records the same end and the same leaf, so the continuation decides nothing, yet its presence makes a partial lexer answer "need more input")', floor=500)
+    for cfg, d, m, sm, name, s in each_state(ctx, cfgs):
+        k = skey(d, m, name)
+        rep.inst(g18, k)
+        if not s.record or s.record[1] != 'early' or s.loopset:
+            continue
+        succ = set(s.edges.values())
+        if s.eoi_edge is not None:
+            succ.add(s.eoi_edge)
+        if not succ:
+            continue
+        leaf = s.record[0]
+
+        def sink(t):
+            x = sm[t]
+            return not x.edges and not x.loopset and x.eoi_edge is None and x.record == (leaf, 'late')
+        if all(sink(t) for t in succ):
+            rep.viol(g18, 'redundant:%s' % k, 'state %s records leaf %s early, and all of its %d successor state(s) are sinks that only record %s again at the same end: the late accept of those sinks should have been removed; a partial lexer withholds the decided item' % (name, leaf, len(succ), leaf), d.name)
